@@ -442,6 +442,21 @@ func checkC05(ctx *core.Ctx, rep *core.Report) {
 	}}, func(st *xstate.State) {
 		report(st, c05Repeat(st, rep))
 	})
+	// every map-iteration start on the lists that repeat themselves (one element duplicated, two elements duplicated) over
+	// the same cover: text assembled from a map / set of the repeated things is where iteration order shows
+	nrep := 4
+	if !ctx.Quick() {
+		nrep = 8
+	}
+	xstate.Explore(ctx, rep, xstate.Options{Seeds: cover, Depth: 1, Only: func(d string) bool {
+		return strings.HasSuffix(d, ":dup") || strings.Contains(d, ":dup2:")
+	}}, func(st *xstate.State) {
+		if len(st.Path) == 0 {
+			return
+		}
+		report(st, c05State(st, nrep, seedList[:1], rep))
+		rep.Inc("map_order_states_on_repeated_list_elements")
+	})
 }
 
 // c05Histories: every ordered pair (and triples over a subset) of lint calls —
